@@ -251,6 +251,22 @@ def plan(ck):
     # (Yeast, Mold, Mycoplasma, Invertebrate, Echinoderm, Euplotid, Ascidian, Blepharisma all have 62 sense codons)
     for code in rng.sample([2, 3, 5, 7, 8, 11, 13], 2):
         cases.append(special("MG94", code=code))
+    # every parameter argument as every AbstractParameter subclass (view of a shared vector, transformed, cat), as
+    # python objects and as JSON, with one reassignment through the holder
+    import c04c05_holders as H
+
+    for kind in ("HKY", "GTR", "GeneralSymmetric", "GeneralNonSymmetric") + (("MG94",) if th else ()):
+        for target in M.PARAM_NAMES[kind]:
+            for hk in H.KINDS[1:]:
+                for rk in ("ctor", "json"):
+                    r = {"kind": rk, "order": rng.randrange(1000), "form": "inline", "fulltype": False}
+                    if kind.startswith("General"):
+                        r["mapping"] = "list"
+                    c = special(kind, batch=rng.choice(["none", "all"]), n=4 if kind.startswith("General") else None)
+                    c["route"] = r
+                    c["holder"] = {nm: (hk if nm == target else "plain") for nm in M.PARAM_NAMES[kind]}
+                    M.add_updates(rng, c, 1, which=[target])
+                    cases.append(c)
     # construction routes: every class x every route x every subset of the optional keys
     for kind in ("JC69", "GeneralJC69", "LG", "WAG", "HKY", "GTR", "GeneralSymmetric", "GeneralNonSymmetric", "MG94"):
         for rk in ("kw", "json", "cli"):
@@ -349,13 +365,18 @@ def run(ck: Check):
         if outs[0]["status"] == "ok" and counter[0] % 4 == 0 and c["kind"] != "MG94":
             # evaluation under no_grad / with leaves requiring grad must agree bitwise with the plain one
             for mode in ("no_grad", "requires_grad"):
-                alt = M.impl_eval(dict(c, grad=mode, deepcopy=False))
-                same = len(alt) == len(outs) and all(
+                cc, want = dict(c, grad=mode, deepcopy=False), outs
+                if mode == "requires_grad" and "view" in (c.get("holder") or {}).values():
+                    # assigning through a view writes in place into a leaf that requires grad (torch forbids it;
+                    # ViewParameter's business): first evaluation only
+                    cc["updates"], want = [], outs[:1]
+                alt = M.impl_eval(cc)
+                same = len(alt) == len(want) and all(
                     a["status"] == b["status"] and (a["status"] != "ok" or (
                         all(np.array_equal(x, y) for x, y in zip(a["Q"], b["Q"]))
                         # p_t: torch's eigh/inverse/matmul kernels may differ by an ulp when a graph is recorded
                         and np.abs(a["P"] - b["P"]).max() <= (1e-6 if M.low_precision(c) else 1e-14)))
-                    for a, b in zip(alt, outs))
+                    for a, b in zip(alt, want))
                 if not same:
                     ck.mismatch("evaluation differs under grad mode " + mode, {"case": c})
                     failures.append((dict(c, grad=mode, deepcopy=False), "grad_mode_changes_values", {"mode": mode}))
@@ -367,7 +388,7 @@ def run(ck: Check):
             ck.mismatch("object built through this route does not hold the options it was given",
                         {"case": c, "observed": list(M.OBSERVED)})
         if route["kind"] != "ctor" and outs[0]["status"] == "ok":
-            base = dict(c, route=dict({x: route[x] for x in ("normalize",) if x in route}, kind="ctor"))
+            base = dict(c, route=dict({x: route[x] for x in ("normalize",) if x in route}, kind="ctor"), holder={})
             base.pop("updates", None)
             ref = M.impl_eval(base)[0]
             if ref["status"] != "ok" or any(not np.array_equal(a, b) for a, b in zip(ref["Q"], outs[0]["Q"])) \
@@ -375,7 +396,9 @@ def run(ck: Check):
                 ck.mismatch("object built through this route evaluates differently from the constructor-built one",
                             {"case": c, "constructor_status": ref["status"]})
         for k, out in enumerate(outs):
-            ck_ = M.state_at(c, k)
+            ck_ = M.state_for(c, k, out) if out["status"] == "ok" else M.state_at(c, k)
+            if ck_.pop("_holder_mismatch", None):
+                ck.mismatch("a parameter object does not hold the values it was given", {"case": c, "step": k})
             st = out["status"]
             hist = "/update:" + "+".join(sorted(c["updates"][k - 1]["set"])) if k else ""
             ck.case(key=key_of(ck_) + (k, c.get("layout")) + ((tuple(c["ts"][0]),) if trivial else ()),
@@ -447,7 +470,7 @@ def run(ck: Check):
             outs = M.impl_eval(small)
             k = len(outs) - 1
             out = outs[k]
-            det = M.oracle(M.state_at(small, k), out) if out["status"] == "ok" else [("raises", out["error"])]
+            det = M.oracle(M.state_for(small, k, out), out) if out["status"] == "ok" else [("raises", out["error"])]
             det = [d for d in det if d[0] == name] or det
             if name == "differs_from_fresh_process":
                 det = [(name, dict(detail, note="q() of this object, built after the other objects of this run, differs "
@@ -496,7 +519,7 @@ def failing_steps(c, name):
         if out["status"] != "ok":
             if name == "raises":
                 bad.append(k)
-        elif any(nm == name for nm, _ in M.oracle(M.state_at(c, k), out)):
+        elif any(nm == name for nm, _ in M.oracle(M.state_for(c, k, out), out)):
             bad.append(k)
     return bad
 
@@ -543,7 +566,7 @@ def replay(path: str) -> int:
         if out["status"] != "ok":
             print("implementation raises / wrong shape:", out["error"])
             return 1
-        bad = M.oracle(M.state_at(c, k), out)
+        bad = M.oracle(M.state_for(c, k, out), out)
         for name, detail in bad:
             print("VIOLATES", name, detail)
             rc = 1
